@@ -43,7 +43,7 @@ class PurityStream(Stream):
         n = 200 if tier == "quick" else 3000
         out = []
         while len(out) < n:
-            t = paramlib.gen_tree(rng, rng.choice([1, 2, 2, 3]), spy_p=0.5)
+            t = paramlib.gen_tree(rng, rng.choice([1, 2, 2, 3]), spy_p=0.5, twins=True, replace=True)
             if "children" not in t:
                 continue
             paramlib.sanitize(t)
